@@ -189,6 +189,10 @@ Section F2.
   Proof. induction n; intros; simpl; [constructor|]. apply F2_app; auto. Qed.
 End F2.
 
+Lemma F2_impl : forall {A B} (R R' : A -> B -> Prop) l pl,
+  (forall a b, R a b -> R' a b) -> Forall2 R l pl -> Forall2 R' l pl.
+Proof. induction 2; constructor; auto. Qed.
+
 (* pair lists with equal keys *)
 Definition RKV {A B} (R : A -> B -> Prop) (a : Z * A) (b : Z * B) : Prop := fst a = fst b /\ R (snd a) (snd b).
 
@@ -353,20 +357,32 @@ Proof.
   apply nth_error_Some. congruence.
 Qed.
 
+Lemma keeps_len : forall n h h', keeps n h h' -> length h <= length h'.
+Proof. intros n h h' [L _]. auto. Qed.
+Lemma keeps_nth : forall n h h' id, keeps n h h' -> id < n -> nth_error h' id = nth_error h id.
+Proof. intros n h h' id [_ K]. auto. Qed.
+Lemma keeps_of_others : forall n h h' id, length h' = length h -> n <= id ->
+  (forall j, j <> id -> nth_error h' j = nth_error h j) -> keeps n h h'.
+Proof. intros. split; [lia|]. intros. apply H1. lia. Qed.
+Global Opaque keeps.
+
 (* ------------------------------------------------------------------ abstraction relation *)
 
 Section ABS.
-  (* ok: what is known of every large-array header reachable from a value (the machine invariant instantiates it
-     with "longer than MaxSmallArray"; the reader uses no assumption) *)
-  Variable ok : slice -> Prop.
+  (* wf = Some m: the machine invariant (m = MaxSmallArray): an inline array has at most m elements, a large-array
+     header has more than m elements, headers have len <= cap.  wf = None: no assumption (used by the reader). *)
+  Variable wf : option nat.
+  Definition wf_small (l : list val) : Prop := match wf with Some m => length l <= m | None => True end.
+  Definition wf_big (s : slice) : Prop := match wf with Some m => m < slen s /\ slen s <= scap s | None => True end.
+  Definition wf_hdr (s : slice) : Prop := match wf with Some _ => slen s <= scap s | None => True end.
 
   Inductive Abs (h : heap) : val -> pval -> Prop :=
   | Abs_int : forall z, Abs h (VInt z) (PInt z)
   | Abs_nil : Abs h VNil PNil
-  | Abs_arrS : forall l pl, AbsL h l pl -> Abs h (VArrS l) (PArr pl)
-  | Abs_arrB : forall s l pl, ok s -> read_arr h s = Some l -> AbsL h l pl -> Abs h (VArrB s) (PArr pl)
+  | Abs_arrS : forall l pl, wf_small l -> AbsL h l pl -> Abs h (VArrS l) (PArr pl)
+  | Abs_arrB : forall s l pl, wf_big s -> read_arr h s = Some l -> AbsL h l pl -> Abs h (VArrB s) (PArr pl)
   | Abs_mapS : forall l pl, AbsM h l pl -> Abs h (VMapS l) (PMap pl)
-  | Abs_mapB : forall p s l pl, map_hdr h p = Some s -> read_kv h s = Some l -> AbsM h l pl -> Abs h (VMapB p) (PMap pl)
+  | Abs_mapB : forall p s l pl, wf_hdr s -> map_hdr h p = Some s -> read_kv h s = Some l -> AbsM h l pl -> Abs h (VMapB p) (PMap pl)
   with AbsL (h : heap) : list val -> list pval -> Prop :=
   | AbsL_nil : AbsL h [] []
   | AbsL_cons : forall v p l pl, Abs h v p -> AbsL h l pl -> AbsL h (v :: l) (p :: pl)
@@ -422,11 +438,11 @@ Section ABS.
     apply Abs_mutind.
     - intros z p' H; inversion H; auto.
     - intros p' H; inversion H; auto.
-    - intros l pl HL IH p' H; inversion H; subst; f_equal; auto.
+    - intros l pl Hwf HL IH p' H; inversion H; subst; f_equal; auto.
     - intros s l pl Hok Hr HL IH p' H; inversion H; subst.
       match goal with H2 : read_arr h s = Some ?b |- _ => tryif constr_eq b l then fail else (pose proof (same _ _ _ _ Hr H2); subst) end. f_equal; auto.
     - intros l pl HL IH p' H; inversion H; subst; f_equal; auto.
-    - intros p s l pl Hh Hr HL IH p' H; inversion H; subst.
+    - intros p s l pl Hwf Hh Hr HL IH p' H; inversion H; subst.
       match goal with H2 : map_hdr h p = Some ?b |- _ => tryif constr_eq b s then fail else (pose proof (same _ _ _ _ Hh H2); subst) end.
       match goal with H1 : read_kv h ?x = Some ?a, H2 : read_kv h ?x = Some ?b |- _ =>
         tryif constr_eq a b then fail else (pose proof (same _ _ _ _ H1 H2); subst) end. f_equal; auto.
@@ -440,16 +456,16 @@ Section ABS.
   Proof. intros. eapply (proj1 (Abs_fun_all h)); eauto. Qed.
 End ABS.
 
-Lemma Abs_weaken_all : forall (ok ok' : slice -> Prop), (forall s, ok s -> ok' s) -> forall h,
-  (forall v p, Abs ok h v p -> Abs ok' h v p) /\
-  (forall l pl, AbsL ok h l pl -> AbsL ok' h l pl) /\
-  (forall l pl, AbsM ok h l pl -> AbsM ok' h l pl).
+Lemma Abs_forget_all : forall wf h,
+  (forall v p, Abs wf h v p -> Abs None h v p) /\
+  (forall l pl, AbsL wf h l pl -> AbsL None h l pl) /\
+  (forall l pl, AbsM wf h l pl -> AbsM None h l pl).
 Proof.
-  intros ok ok' Hok h. apply Abs_mutind; intros; try (econstructor; eauto; fail).
+  intros wf h. apply Abs_mutind; intros; try (econstructor; eauto; simpl; auto; fail).
 Qed.
 
 (* the executable reader is sound for the relation (no assumption on headers) *)
-Lemma read_sound : forall fuel h v p, read fuel h v = Some p -> Abs (fun _ => True) h v p.
+Lemma read_sound : forall fuel h v p, read fuel h v = Some p -> Abs None h v p.
 Proof.
   induction fuel; intros h v p H; simpl in H; [discriminate|].
   set (rl := fix rl (l : list val) : option (list pval) :=
@@ -462,12 +478,12 @@ Proof.
       | [] => Some []
       | (k, x) :: t => match read fuel h x, rm t with Some p, Some ps => Some ((k, p) :: ps) | _, _ => None end
       end) in *.
-  assert (RL : forall l pl, rl l = Some pl -> AbsL (fun _ => True) h l pl).
+  assert (RL : forall l pl, rl l = Some pl -> AbsL None h l pl).
   { induction l; intros pl E; simpl in E.
     - inversion E. constructor.
     - destruct (read fuel h a) eqn:E1; [|discriminate]. destruct (rl l) eqn:E2; [|discriminate].
       inversion E; subst. constructor; auto. }
-  assert (RM : forall l pl, rm l = Some pl -> AbsM (fun _ => True) h l pl).
+  assert (RM : forall l pl, rm l = Some pl -> AbsM None h l pl).
   { induction l; intros pl E; simpl in E.
     - inversion E. constructor.
     - destruct a as [k x]. destruct (read fuel h x) eqn:E1; [|discriminate]. destruct (rm l) eqn:E2; [|discriminate].
@@ -475,10 +491,309 @@ Proof.
   destruct v.
   - inversion H. constructor.
   - inversion H. constructor.
-  - destruct (rl l) eqn:E; inversion H. constructor; auto.
+  - destruct (rl l) eqn:E; inversion H. constructor; simpl; auto.
   - destruct (read_arr h s) eqn:E0; [|discriminate]. destruct (rl l) eqn:E; inversion H.
-    econstructor; eauto.
+    econstructor; simpl; eauto.
   - destruct (rm l) eqn:E; inversion H. constructor; auto.
   - destruct (map_hdr h p0) eqn:E0; [|discriminate]. destruct (read_kv h s) eqn:E1; [|discriminate].
-    destruct (rm l) eqn:E; inversion H. econstructor; eauto.
+    destruct (rm l) eqn:E; inversion H. econstructor; simpl; eauto.
 Qed.
+
+(* ------------------------------------------------------------------ the machine with the repairs refines the pure model *)
+
+Ltac splits := repeat match goal with |- _ /\ _ => split end.
+
+(* what Go guarantees of a grown slice: at least the requested length *)
+Definition good (o : oracle) : Prop := forall kv c n, n <= o kv c n.
+
+Lemma store_arr_spec : forall h id l pos xs l',
+  nth_error h id = Some (CArr l) -> splice l pos xs = Some l' ->
+  exists h', store_arr h id pos xs = Some h' /\ nth_error h' id = Some (CArr l') /\
+    (forall j, j <> id -> nth_error h' j = nth_error h j) /\ length h' = length h.
+Proof.
+  intros. unfold store_arr. rewrite H, H0.
+  assert (id < length h) by (apply nth_error_Some; congruence).
+  destruct (set_nth_some h id (CArr l') H1) as [h' Hh]. exists h'. rewrite Hh.
+  splits; auto.
+  - eapply set_nth_same; eauto.
+  - intros. eapply set_nth_other; eauto.
+  - eapply set_nth_length; eauto.
+Qed.
+
+Lemma store_kv_spec : forall h id l pos xs l',
+  nth_error h id = Some (CKV l) -> splice l pos xs = Some l' ->
+  exists h', store_kv h id pos xs = Some h' /\ nth_error h' id = Some (CKV l') /\
+    (forall j, j <> id -> nth_error h' j = nth_error h j) /\ length h' = length h.
+Proof.
+  intros. unfold store_kv. rewrite H, H0.
+  assert (id < length h) by (apply nth_error_Some; congruence).
+  destruct (set_nth_some h id (CKV l') H1) as [h' Hh]. exists h'. rewrite Hh.
+  splits; auto.
+  - eapply set_nth_same; eauto.
+  - intros. eapply set_nth_other; eauto.
+  - eapply set_nth_length; eauto.
+Qed.
+
+(* a store inside / at the end of the window of s *)
+Lemma store_arr_window : forall h s l k new,
+  read_arr h s = Some l -> k <= slen s ->
+  exists h', store_arr h (sid s) (soff s + k) new = Some h' /\
+    read_arr h' (mkslice (sid s) (soff s) (k + length new) (scap s)) = Some (firstn k l ++ new) /\
+    (k + length new <= slen s -> read_arr h' s = Some (firstn k l ++ new ++ skipn (k + length new) l)) /\
+    (forall j, j <> sid s -> nth_error h' j = nth_error h j) /\ length h' = length h.
+Proof.
+  intros h s l k new H Hk. unfold read_arr in H.
+  destruct (nth_error h (sid s)) as [[cl| |]|] eqn:E; try discriminate.
+  destruct (splice_window cl (soff s) (slen s) l k new H Hk) as (cl' & Hs & Hw1 & Hw2 & _).
+  destruct (store_arr_spec _ _ _ _ _ _ E Hs) as (h' & Hst & Hn & Ho & Hl).
+  exists h'. splits; auto.
+  - unfold read_arr. simpl. rewrite Hn. auto.
+  - intros. unfold read_arr. rewrite Hn. auto.
+Qed.
+
+Lemma store_kv_window : forall h s l k new,
+  read_kv h s = Some l -> k <= slen s ->
+  exists h', store_kv h (sid s) (soff s + k) new = Some h' /\
+    read_kv h' (mkslice (sid s) (soff s) (k + length new) (scap s)) = Some (firstn k l ++ new) /\
+    (k + length new <= slen s -> read_kv h' s = Some (firstn k l ++ new ++ skipn (k + length new) l)) /\
+    (forall j, j <> sid s -> nth_error h' j = nth_error h j) /\ length h' = length h.
+Proof.
+  intros h s l k new H Hk. unfold read_kv in H.
+  destruct (nth_error h (sid s)) as [[|cl|]|] eqn:E; try discriminate.
+  destruct (splice_window cl (soff s) (slen s) l k new H Hk) as (cl' & Hs & Hw1 & Hw2 & _).
+  destruct (store_kv_spec _ _ _ _ _ _ E Hs) as (h' & Hst & Hn & Ho & Hl).
+  exists h'. splits; auto.
+  - unfold read_kv. simpl. rewrite Hn. auto.
+  - intros. unfold read_kv. rewrite Hn. auto.
+Qed.
+
+Lemma read_arr_len : forall h s l, read_arr h s = Some l -> length l = slen s.
+Proof.
+  unfold read_arr. intros. destruct (nth_error h (sid s)) as [[| |]|]; try discriminate.
+  eapply window_length; eauto.
+Qed.
+Lemma read_kv_len : forall h s l, read_kv h s = Some l -> length l = slen s.
+Proof.
+  unfold read_kv. intros. destruct (nth_error h (sid s)) as [[| |]|]; try discriminate.
+  eapply window_length; eauto.
+Qed.
+
+Lemma read_arr_alloc : forall h l n cap, n = length l ->
+  read_arr (fst (alloc h (CArr l))) (mkslice (length h) 0 n cap) = Some l.
+Proof.
+  intros. unfold read_arr. simpl sid. rewrite alloc_new. simpl. subst.
+  unfold window. simpl. rewrite Nat.leb_refl. now rewrite firstn_all.
+Qed.
+Lemma read_kv_alloc : forall h l n cap, n = length l ->
+  read_kv (fst (alloc h (CKV l))) (mkslice (length h) 0 n cap) = Some l.
+Proof.
+  intros. unfold read_kv. simpl sid. rewrite alloc_new. simpl. subst.
+  unfold window. simpl. rewrite Nat.leb_refl. now rewrite firstn_all.
+Qed.
+
+Section SIM.
+  Variable c : cfg.
+  Variable o : oracle.
+  Hypothesis Hcow : cow c = true.
+  Hypothesis Hgood : good o.
+
+  Notation A := (Abs (Some (msa c))).
+  Notation AL := (AbsL (Some (msa c))).
+  Notation AM := (AbsM (Some (msa c))).
+
+  (* append: the slice is private to the current statement (allocated at or after n0) or has no spare capacity *)
+  Lemma go_append_spec : forall n0 h s l xs,
+    read_arr h s = Some l -> n0 <= length h -> slen s <= scap s -> (n0 <= sid s \/ scap s <= slen s) ->
+    exists h' s', go_append o h s xs = Ok (h', s') /\ keeps n0 h h' /\ read_arr h' s' = Some (l ++ xs) /\
+      slen s' = slen s + length xs /\ slen s' <= scap s' /\ (n0 <= sid s' \/ (xs = [] /\ s' = s)) /\
+      (forall j, j < length h -> j <> sid s -> nth_error h' j = nth_error h j).
+  Proof.
+    intros n0 h s l xs Hr Hn0 Hcap Hown. unfold go_append.
+    destruct (length xs =? 0) eqn:E0.
+    { apply Nat.eqb_eq in E0. destruct xs; [|discriminate]. exists h, s. rewrite app_nil_r. simpl.
+      splits; auto using keeps_refl; lia. }
+    apply Nat.eqb_neq in E0.
+    destruct (slen s + length xs <=? scap s) eqn:E1.
+    - apply Nat.leb_le in E1. destruct Hown as [Hown|Hown]; [|lia].
+      destruct (store_arr_window h s l (slen s) xs Hr (le_n _)) as (h' & Hst & Hrd & _ & Ho & Hl).
+      rewrite Hst. simpl. eexists _, _. split; [reflexivity|].
+      rewrite firstn_all2 in Hrd by (rewrite (read_arr_len _ _ _ Hr); lia).
+      splits; simpl; auto; try lia; try (intros; apply Ho; auto);
+        try (eapply (keeps_of_others n0 h h' (sid s)); eauto).
+    - apply Nat.leb_gt in E1.
+      pose proof (Hgood false (scap s) (slen s + length xs)) as Hg.
+      destruct (o false (scap s) (slen s + length xs) <? slen s + length xs) eqn:E2;
+        [apply Nat.ltb_lt in E2; lia|].
+      rewrite Hr. simpl.
+      eexists _, _. split; [reflexivity|]. splits; simpl; auto; try lia;
+        try (apply (keeps_alloc n0 h); auto; fail);
+        try (apply read_arr_alloc; rewrite app_length, (read_arr_len _ _ _ Hr); auto; fail);
+        try (intros; apply nth_error_app1; auto).
+  Qed.
+
+  Lemma go_append_kv_spec : forall n0 h s l xs,
+    read_kv h s = Some l -> n0 <= length h -> slen s <= scap s -> (n0 <= sid s \/ scap s <= slen s) ->
+    exists h' s', go_append_kv o h s xs = Ok (h', s') /\ keeps n0 h h' /\ read_kv h' s' = Some (l ++ xs) /\
+      slen s' = slen s + length xs /\ slen s' <= scap s' /\ (n0 <= sid s' \/ (xs = [] /\ s' = s)) /\
+      (forall j, j < length h -> j <> sid s -> nth_error h' j = nth_error h j).
+  Proof.
+    intros n0 h s l xs Hr Hn0 Hcap Hown. unfold go_append_kv.
+    destruct (length xs =? 0) eqn:E0.
+    { apply Nat.eqb_eq in E0. destruct xs; [|discriminate]. exists h, s. rewrite app_nil_r. simpl.
+      splits; auto using keeps_refl; lia. }
+    apply Nat.eqb_neq in E0.
+    destruct (slen s + length xs <=? scap s) eqn:E1.
+    - apply Nat.leb_le in E1. destruct Hown as [Hown|Hown]; [|lia].
+      destruct (store_kv_window h s l (slen s) xs Hr (le_n _)) as (h' & Hst & Hrd & _ & Ho & Hl).
+      rewrite Hst. simpl. eexists _, _. split; [reflexivity|].
+      rewrite firstn_all2 in Hrd by (rewrite (read_kv_len _ _ _ Hr); lia).
+      splits; simpl; auto; try lia; try (intros; apply Ho; auto);
+        try (eapply (keeps_of_others n0 h h' (sid s)); eauto).
+    - apply Nat.leb_gt in E1.
+      pose proof (Hgood true (scap s) (slen s + length xs)) as Hg.
+      destruct (o true (scap s) (slen s + length xs) <? slen s + length xs) eqn:E2;
+        [apply Nat.ltb_lt in E2; lia|].
+      rewrite Hr. simpl.
+      eexists _, _. split; [reflexivity|]. splits; simpl; auto; try lia;
+        try (apply (keeps_alloc n0 h); auto; fail);
+        try (apply read_kv_alloc; rewrite app_length, (read_kv_len _ _ _ Hr); auto; fail);
+        try (intros; apply nth_error_app1; auto).
+  Qed.
+
+  Lemma read_arr_zero : forall h s l, read_arr h s = Some l -> read_arr h (mkslice (sid s) (soff s) 0 0) = Some [].
+  Proof.
+    unfold read_arr. simpl. intros. destruct (nth_error h (sid s)) as [[cl| |]|]; try discriminate.
+    apply window_some in H as [H _]. apply window_some. split; [lia|reflexivity].
+  Qed.
+  Lemma read_kv_zero : forall h s l, read_kv h s = Some l -> read_kv h (mkslice (sid s) (soff s) 0 0) = Some [].
+  Proof.
+    unfold read_kv. simpl. intros. destruct (nth_error h (sid s)) as [[|cl|]|]; try discriminate.
+    apply window_some in H as [H _]. apply window_some. split; [lia|reflexivity].
+  Qed.
+
+  (* slices.Clone *)
+  Lemma go_clone_spec : forall h s l, read_arr h s = Some l ->
+    exists h' s', go_clone o h s = Ok (h', s') /\ keeps (length h) h h' /\ read_arr h' s' = Some l /\
+      slen s' = slen s /\ slen s' <= scap s' /\ (length h <= sid s' \/ (l = [] /\ scap s' = 0)).
+  Proof.
+    intros. unfold go_clone. rewrite H. simpl.
+    destruct (go_append_spec (length h) h _ [] l (read_arr_zero _ _ _ H) (le_n _)) as (h' & s' & Ha & Hk & Hr & Hl & Hc & Hf & _);
+      simpl; auto.
+    exists h', s'. simpl in *. splits; auto.
+    - rewrite Hl. eapply read_arr_len; eauto.
+    - destruct Hf as [Hf|[-> ->]]; auto.
+  Qed.
+  Lemma go_clone_kv_spec : forall h s l, read_kv h s = Some l ->
+    exists h' s', go_clone_kv o h s = Ok (h', s') /\ keeps (length h) h h' /\ read_kv h' s' = Some l /\
+      slen s' = slen s /\ slen s' <= scap s' /\ (length h <= sid s' \/ (l = [] /\ scap s' = 0)).
+  Proof.
+    intros. unfold go_clone_kv. rewrite H. simpl.
+    destruct (go_append_kv_spec (length h) h _ [] l (read_kv_zero _ _ _ H) (le_n _)) as (h' & s' & Ha & Hk & Hr & Hl & Hc & Hf & _);
+      simpl; auto.
+    exists h', s'. simpl in *. splits; auto.
+    - rewrite Hl. eapply read_kv_len; eauto.
+    - destruct Hf as [Hf|[-> ->]]; auto.
+  Qed.
+
+  Lemma AL_keeps : forall hb h l pl, Forall2 (A hb) l pl -> keeps (length hb) hb h -> AL h l pl.
+  Proof.
+    intros. apply AbsL_F2. eapply F2_impl; [|eauto]. intros. eapply Abs_keeps; eauto.
+  Qed.
+
+  (* object.NewArray over a slice whose elements are values of the base heap hb *)
+  Lemma new_array_spec : forall hb h s l pl,
+    read_arr h s = Some l -> slen s <= scap s -> Forall2 (A hb) l pl -> keeps (length hb) hb h ->
+    exists r, new_array c h s = Ok r /\ A h r (PArr pl).
+  Proof.
+    intros hb h s l pl Hr Hcap HF HK. unfold new_array.
+    pose proof (read_arr_len _ _ _ Hr) as HL.
+    destruct (slen s =? 0) eqn:E0.
+    - apply Nat.eqb_eq in E0. destruct l; [|simpl in HL; lia]. inversion HF; subst.
+      eexists; split; eauto. constructor; [simpl; lia|constructor].
+    - destruct (slen s <=? msa c) eqn:E1.
+      + apply Nat.leb_le in E1. rewrite Hr. simpl. eexists; split; eauto.
+        constructor; [simpl; lia|]. eapply AL_keeps; eauto.
+      + apply Nat.leb_gt in E1. eexists; split; eauto.
+        econstructor; eauto; [simpl; lia|]. eapply AL_keeps; eauto.
+  Qed.
+
+  (* object.Elements: hb is the heap the value was read in, h the current one *)
+  Lemma elements_spec : forall hb h v pl, A hb v (PArr pl) -> keeps (length hb) hb h ->
+    exists h1 s l, elements c h v = Ok (h1, s) /\ keeps (length h) h h1 /\ read_arr h1 s = Some l /\
+      Forall2 (A hb) l pl /\ slen s <= scap s /\ arr_len v = length pl /\
+      ((sid s = length h /\ scap s = msa c /\ msa c <? slen s = false) \/ (h1 = h /\ msa c < slen s /\ sid s < length hb)).
+  Proof.
+    intros hb h v pl HA HK. inversion HA; subst.
+    - match goal with H : AbsL _ _ l pl |- _ => pose proof (proj1 (AbsL_F2 _ _ _ _) H) as HF end.
+      match goal with H : wf_small _ l |- _ => simpl in H; rename H into Hw end.
+      simpl. eexists _, _, l. split; [reflexivity|].
+      splits; simpl; auto.
+      + apply (keeps_alloc (length h) h (CArr l)). auto.
+      + apply (read_arr_alloc h l). auto.
+      + apply (F2_length _ _ _ HF).
+      + left. splits; auto. apply Nat.ltb_ge. auto.
+    - match goal with H : AbsL _ _ l pl |- _ => pose proof (proj1 (AbsL_F2 _ _ _ _) H) as HF end.
+      match goal with H : wf_big _ s |- _ => simpl in H; destruct H as [Hm Hc] end.
+      match goal with H : read_arr hb s = Some l |- _ => rename H into Hr end.
+      simpl. exists h, s, l.
+      splits; auto using keeps_refl.
+      + rewrite (read_arr_keeps _ _ _ _ HK); auto. eapply read_arr_lt; eauto.
+      + rewrite <- (F2_length _ _ _ HF). symmetry. eapply read_arr_len; eauto.
+      + right. splits; auto. eapply read_arr_lt; eauto.
+  Qed.
+
+  Lemma idx_norm_lt : forall n i k, idx_norm n i = Some k -> k < n.
+  Proof.
+    unfold idx_norm. intros n i k. 
+    destruct (i <? 0)%Z eqn:E; destruct (_ || _) eqn:E2; intros H; inversion H; subst;
+      apply orb_false_iff in E2 as [E3 E4]; apply Z.ltb_ge in E3; apply Z.leb_gt in E4; lia.
+  Qed.
+
+  Lemma set_nth_as_splice : forall {X} (l : list X) k x, k < length l ->
+    set_nth l k x = Some (firstn k l ++ [x] ++ skipn (k + 1) l).
+  Proof. intros. rewrite set_nth_spec by auto. now rewrite Nat.add_1_r. Qed.
+
+  Definition res_rel {X Y} (R : X -> Y -> Prop) (m : res X) (p : res Y) : Prop :=
+    match p with
+    | Ok b => exists a, m = Ok a /\ R a b
+    | Err => m = Err
+    | Dom => m = Dom
+    | Stuck => m = Stuck
+    end.
+
+  (* result of a value-level operation started in heap h *)
+  Definition VR (h : heap) (a : heap * val) (p : pval) : Prop :=
+    keeps (length h) h (fst a) /\ A (fst a) (snd a) p.
+
+  Lemma arr_idx_set_sim : forall h xv pl i v pv,
+    A h xv (PArr pl) -> A h v pv ->
+    res_rel (VR h) (arr_idx_set c o h xv i v) (p_idx_set (PArr pl) i pv).
+  Proof.
+    intros h xv pl i v pv HX HV.
+    destruct (elements_spec h h xv pl HX (keeps_refl _ _)) as (h1 & s & l & He & K1 & R1 & F1 & C1 & Hlen & Hk).
+    unfold arr_idx_set, p_idx_set. rewrite Hlen.
+    destruct (idx_norm (length pl) i) as [k|] eqn:EI; [|reflexivity].
+    pose proof (idx_norm_lt _ _ _ EI) as Hklt.
+    rewrite He. simpl. rewrite Hcow. simpl.
+    pose proof (read_arr_len _ _ _ R1) as HL1.
+    assert (Hkl : k < length l) by (rewrite (F2_length _ _ _ F1); auto).
+    (* after the optional clone: a private slice s2 reading l *)
+    assert (X : exists h2 s2, (if msa c <? slen s then go_clone o h1 s else Ok (h1, s)) = Ok (h2, s2) /\
+              keeps (length h) h h2 /\ read_arr h2 s2 = Some l /\ slen s2 = slen s /\ slen s2 <= scap s2 /\ length h <= sid s2).
+    { destruct Hk as [(Hs & Hc & Hb)|(-> & Hb & Hs)].
+      - rewrite Hb. exists h1, s. splits; auto. lia.
+      - replace (msa c <? slen s) with true by (symmetry; apply Nat.ltb_lt; auto).
+        destruct (go_clone_spec h s l R1) as (h2 & s2 & Hc & K2 & R2 & L2 & C2 & F2).
+        exists h2, s2. splits; auto. destruct F2 as [F2|[-> _]]; auto. simpl in HL1. lia. }
+    destruct X as (h2 & s2 & -> & K2 & R2 & L2 & C2 & F2). simpl.
+    destruct (store_arr_window h2 s2 l k [v] R2) as (h3 & Hst & _ & Hrd & Ho & Hl3); [lia|].
+    rewrite Hst. simpl.
+    assert (K3 : keeps (length h) h h3).
+    { eapply keeps_trans; eauto. eapply (keeps_of_others (length h) h2 h3 (sid s2)); eauto. }
+    rewrite (set_nth_as_splice pl k pv Hklt). simpl.
+    specialize (Hrd ltac:(simpl; lia)). simpl in Hrd.
+    destruct (new_array_spec h h3 s2 _ (firstn k pl ++ [pv] ++ skipn (k + 1) pl) Hrd C2) as (r & Hn & HA); auto.
+    { apply F2_app; [apply F2_firstn; auto|]. constructor; auto. apply F2_skipn; auto. }
+    rewrite Hn. simpl. eexists; split; [reflexivity|]. split; simpl; auto.
+  Qed.
+End SIM.
